@@ -81,6 +81,7 @@ func runC16(c *Ctx) {
 	c.checkC16Purity()
 	c.checkSetters("setter-records-arguments", "align", "*phaser", "*pwaligner")
 	c.L.Floor("setter-records-arguments", 7, "14 parameters of the phaser and aligner setters (floor = half)")
+	c.checkMatrixScans("matrix-scan-full", "fillMatrix_SW", "backTrack")
 }
 
 // close(phased) must be preceded by wg.Wait() in the same goroutine.
